@@ -30,7 +30,12 @@ FitsIn(n, r) == n >= 0 /\ n <= r
 BoundedKinds == {"buffer", "pedantic"}           \* Ensure() really checks
 StreamKinds == {"sstream", "fstream"}
 ReaderKinds == {"buffer", "pedantic", "sstream", "fstream", "fd"}
-WriterKinds == {"buffer", "pedantic", "constexpr", "sstream", "fd"}
+WriterKinds == {"buffer", "pedantic", "constexpr", "sstream", "fd", "lstream", "fdfull"}
+\* "lstream": StreamWriter over an output stream whose buffer takes exactly cap bytes; "fdfull": FdWriter on a
+\* descriptor that takes nothing (ENOSPC) - the error paths of the unchecked writers
+IOErr == 16
+Unprepared == {"sstream", "fd", "lstream", "fdfull"}      \* Prepare() checks nothing
+FailCode(kind) == IF kind = "lstream" THEN StreamErr ELSE IF kind = "fdfull" THEN IOErr ELSE WriteLimit
 CheckedWriters == {"pedantic", "constexpr"}
 
 \* the code a reader reports when its data runs out
@@ -76,14 +81,14 @@ NewWriter(kind, cap, bounded, lim, fk, fe) ==
   [kind |-> kind, cap |-> cap, out |-> <<>>, b |-> bounded, lim |-> lim, idx |-> 0,
    fk |-> fk, fe |-> fe, nc |-> 0, dead |-> FALSE, ub |-> FALSE]
 
-Room(w) == IF w.kind \in {"sstream", "fd"} THEN Inf ELSE w.cap - Len(w.out)
+Room(w) == IF w.kind \in {"sstream", "fd"} THEN Inf ELSE IF w.kind = "fdfull" THEN 0 ELSE w.cap - Len(w.out)
 
 \* bs: the bytes to write (for "skipw": n copies of the padding value)
 InnerW(w, op, n, bs) ==
   LET w1 == [w EXCEPT !.nc = @ + 1] IN
   IF w.fk # 0 /\ w1.nc = w.fk THEN [w |-> [w1 EXCEPT !.dead = TRUE], st |-> w.fe]
   ELSE IF op = "prepare"
-  THEN IF w.kind \in {"sstream", "fd"} \/ FitsIn(n, Room(w)) THEN [w |-> w1, st |-> OK]
+  THEN IF w.kind \in Unprepared \/ FitsIn(n, Room(w)) THEN [w |-> w1, st |-> OK]
        ELSE [w |-> w1, st |-> WriteLimit]
   ELSE \* w1, wn, skipw
        IF FitsIn(n, Room(w)) THEN [w |-> [w1 EXCEPT !.out = @ \o bs], st |-> OK]
@@ -91,7 +96,7 @@ InnerW(w, op, n, bs) ==
        \* BufferWriter::Write is documented as unchecked: the caller is obliged to Prepare
        THEN [w |-> [w1 EXCEPT !.ub = TRUE], st |-> OK]
        ELSE IF w.kind = "buffer" THEN [w |-> [w1 EXCEPT !.ub = TRUE], st |-> OK]
-       ELSE [w |-> [w1 EXCEPT !.dead = TRUE], st |-> WriteLimit]
+       ELSE [w |-> [w1 EXCEPT !.dead = TRUE], st |-> FailCode(w.kind)]
 
 WStep(w, op, n, bs) ==
   IF ~w.b THEN LET x == InnerW(w, op, n, bs) IN [w |-> x.w, st |-> x.st, inner |-> TRUE]
@@ -103,4 +108,14 @@ WStep(w, op, n, bs) ==
     THEN [w |-> w, st |-> WriteLimit, inner |-> FALSE]
     ELSE LET x == InnerW(w, op, n, bs) IN
          [w |-> IF x.st = OK /\ op # "prepare" THEN [x.w EXCEPT !.idx = @ + n] ELSE x.w, st |-> x.st, inner |-> TRUE]
+\* ---- accessors ---------------------------------------------------------------
+\* what capacity() / remaining() / empty() report (size() is idx resp. Len(out), checked with the calls):
+\* BoundedReader: capacity = the limit, empty = the limit is used up; buffer readers: capacity = source length,
+\* remaining = bytes not yet consumed, empty = none left; writers: capacity = limit resp. buffer size
+RAccessors(r) ==
+  IF r.b THEN [cap |-> r.lim, emp |-> (r.idx = r.lim)]
+  ELSE [cap |-> Len(r.src), rem |-> Remaining(r), emp |-> (Remaining(r) = 0)]
+WAccessors(w) == IF w.b THEN [cap |-> w.lim] ELSE [cap |-> w.cap]
+\* a logged accessor record agrees with the model on every accessor the class has
+AccessorsAgree(logged, model) == \A f \in DOMAIN logged : f \in DOMAIN model => logged[f] = model[f]
 =============================================================================
